@@ -85,6 +85,22 @@ pub fn run(kind: &str, t: &[&str], aug: bool) -> String {
             "pstroke" => { let st = parse_style(&mut c); let p = parse_path(&mut c); fmt_path(&stroke_to_path(&p, &st), &ident) }
             "prect" => { let (x, y, w, h) = (c.f(), c.f(), c.f(), c.f()); let mut pb = PathBuilder::new(); pb.rect(x, y, w, h); fmt_path(&pb.finish(), &ident) }
             "ptransform" => { let xf = c.xf(); let p = parse_path(&mut c); fmt_path(&p.transform(&xf), &ident) }
+            "pbuild" => {
+                let n = c.int();
+                let mut pb = PathBuilder::new();
+                for _ in 0..n {
+                    match c.next() {
+                        "m" => { let (x, y) = (c.f(), c.f()); pb.move_to(x, y); }
+                        "l" => { let (x, y) = (c.f(), c.f()); pb.line_to(x, y); }
+                        "q" => { let (a, b, x, y) = (c.f(), c.f(), c.f(), c.f()); pb.quad_to(a, b, x, y); }
+                        "c" => { let (a, b, d, e, x, y) = (c.f(), c.f(), c.f(), c.f(), c.f(), c.f()); pb.cubic_to(a, b, d, e, x, y); }
+                        "z" => pb.close(),
+                        "r" => { let (x, y, w, h) = (c.f(), c.f(), c.f(), c.f()); pb.rect(x, y, w, h); }
+                        t => panic!("pbuild call {}", t),
+                    }
+                }
+                fmt_path(&pb.finish(), &ident)
+            }
             "parc" => {
                 let (x, y, r, a0, sw) = (c.f(), c.f(), c.f(), c.f(), c.f());
                 let mut pb = PathBuilder::new();
